@@ -434,7 +434,8 @@ LOOP_PROOF = r'''proof {
 }'''
 
 
-def make_unit(repo_dir):
+def make_unit(repo_dir, which='edit'):
+    """which='edit': unit insertrange (C07); which='sort': unit sortnode (C14) -- ElementRaw::sort over the same reading of the node"""
     check_decls(repo_dir)
     lookups.check_decls(repo_dir)
     sz = lookups.table_sizes(repo_dir)
@@ -595,12 +596,14 @@ proof {
     }
 }''')]),
            ]
-    u = Unit(name='insertrange', prop='C07', spec=spec, fns=fns,
+    fns = [f for f in fns if (f.name == 'sort') == (which == 'sort')]
+    u = Unit(name='insertrange' if which == 'edit' else 'sortnode', prop='C07' if which == 'edit' else 'C14', spec=spec, fns=fns,
              wrap={IMPL_R: 'impl ElementRaw', IMPL_E: 'impl Element', lookups.IMPL_ET: 'impl ElementType', lookups.IMPL_GT: 'impl GroupType', lookups.IMPL_AV: 'impl AutosarVersion', lookups.IMPL_SI: 'impl SubelemDefinitionsIter'},
              dropped=['the element graph: ElementRaw is {elemname, elemtype, content: Vec<ElementContent>} (the fields these functions read; SmallVec -> Vec), a child Element is an opaque handle with uninterpreted name_of/type_of (the real accessors take the child lock); error payloads opaque (R39)',
                       'specification lookups are leaves with the contracts proved in unit lookups (find_sub_element == the spec function find_from); table contents uninterpreted (wf_tables, wf_modes discharged by native ground checks)',
                       '`ElementRaw { .. }.wrap()` (Arc/RwLock allocation) is the leaf vx_new_element'])
-    u.property_lemmas = {'lemma_range_is_exact': 'for children in specification order inside a sequence: inserting at p keeps the order <==> p lies in the reported range'}
+    if which == 'edit':
+        u.property_lemmas = {'lemma_range_is_exact': 'for children in specification order inside a sequence: inserting at p keeps the order <==> p lies in the reported range'}
     for name in LEAVES:
         f = copy.copy(lf[name])
         u.leaves.append((f, 'lookups'))
